@@ -9,7 +9,8 @@ for d in seeded/*/; do
   rsync -a --exclude .git --exclude __pycache__ /repo/ "$s/repo/"
   if (cd "$s/repo" && patch -p1 -s < /verif/$d/patch.diff >/dev/null 2>&1); then
     PYVC_REPO="$s/repo" ./check $prop > "$s/out.txt" 2>&1; code=$?
-    echo "$sid $prop exit $code"
+    note=$(python3 -c "import json; d=json.load(open('/verif/$d/meta.json')); print(' (expected: not reported separately, inside an open known finding)' if d['detected_by'][0].startswith('NOT reported') else '')" 2>/dev/null)
+    echo "$sid $prop exit $code$note"
   else
     echo "$sid $prop PATCH-DOES-NOT-APPLY (the code it changed was changed by a later fix)"
   fi
